@@ -29,6 +29,12 @@ PINNED = {"java": [DEV_LEG, "ipv6-internal-destination-routed", "list-items-comp
 
 # ----------------------------------------------------------------------------------------------- plumbing
 _WD_LOCK = threading.Lock()
+_COV_LOCK = threading.Lock()
+
+
+def cov_add(ctx, key, n):
+    with _COV_LOCK:
+        ctx.cov[key] = ctx.cov.get(key, 0) + n
 
 
 def workdir(ctx, tag):
@@ -323,10 +329,11 @@ def judge_tree(ctx, impl, execf, trace_path, tag, workers=4, heap=None, max_repo
         for o in obs:
             p = path_to(nodes, parent, o)
             c = obs_class(p)
-            slot = ctx.x04_obs.setdefault((impl, "failsafe", c), {"count": 0, "example": None})
-            slot["count"] += 1
-            if slot["example"] is None or len(p) < len(slot["example"]["events"]) + 1:
-                slot["example"] = {"config": script_of(p)["config"], "events": [ev_brief(e) for e in p[1:]]}
+            with _COV_LOCK:
+                slot = ctx.x04_obs.setdefault((impl, "failsafe", c), {"count": 0, "example": None})
+                slot["count"] += 1
+                if slot["example"] is None or len(p) < len(slot["example"]["events"]) + 1:
+                    slot["example"] = {"config": script_of(p)["config"], "events": [ev_brief(e) for e in p[1:]]}
     if rej:
         paths = sorted((path_to(nodes, parent, r) for r in rej), key=len)
         seen = set()
@@ -410,14 +417,14 @@ def part_model(ctx, with_ts):
             if not r.ok:
                 raise Broken("TLC %s/%s: %r\n%s" % (module, cfg, r, r.out[-3000:]))
             if module != "MC_X04Filter":
-                ctx.cov["states"] += r.distinct
-                ctx.cov["transitions"] += r.generated
+                cov_add(ctx, "states", r.distinct)
+                cov_add(ctx, "transitions", r.generated)
                 ctx.log("TLC %s %s: %d generated / %d distinct, %.1fs" % (module, cfg, r.generated, r.distinct, r.wall))
             else:
                 m = re.search(r'<<"FILTER-CASES", (\d+), (\d+), (\d+)>>', r.out)
                 if not m:
                     raise Broken("no FILTER-CASES line: %s" % r.out[-1500:])
-                ctx.cov["filter_space_cases"] = ctx.cov.get("filter_space_cases", 0) + int(m.group(1))
+                cov_add(ctx, "filter_space_cases", int(m.group(1)))
                 ctx.cov["filter_space_must_not_route"] = int(m.group(2))
                 ctx.cov["filter_space_must_route"] = int(m.group(3))
                 ctx.log("TLC %s %s: %s cases (%s with a routing prohibition, %s with a routing obligation), %.1fs" % (
@@ -504,14 +511,14 @@ def part_trees(ctx, execf, impl="java"):
     for tag, s, rej, obs, leaves, nontriv, lines, sample in parallel(one, jobs, n=3 if not T else 5):
         ctx.log("%s tree %s: %d nodes, %d histories (%d open+recover), %d executions, %d observations, %d rejected nodes" % (
             impl, tag, lines, leaves, nontriv, s["executions"], len(obs), len(rej)))
-        ctx.cov["evaluations"] += s["executions"]
+        cov_add(ctx, "evaluations", s["executions"])
         if tag.startswith("dev") and not obs and not rej:
             ctx.notes.append("%s: the family built to exhibit the pinned fail-safe deviation (%s) showed nothing the statement alone rejects" % (impl, tag))
         if not tag.startswith("dev") and obs:
             ctx.notes.append("%s: tree %s has %d observations outside the deviation family" % (impl, tag, len(obs)))
         if not rej:
-            ctx.cov["traces_validated_against_impl"] += leaves
-            ctx.cov["distinct_nontrivial"] += nontriv
+            cov_add(ctx, "traces_validated_against_impl", leaves)
+            cov_add(ctx, "distinct_nontrivial", nontriv)
         if sample:
             ctx.sample({"kind": "exhaustive-tree-prefix", "impl": impl, "tree": tag, "nodes": sample})
     ctx.cov["exhaustive"] = True
@@ -570,7 +577,8 @@ def rand_script(rng, thorough, impl="java", units=(1, 8, 8, 1000)):
     return {"config": cfg, "events": evs}
 
 
-def part_walks(ctx, execf, impl="java"):
+def part_walks(ctx, execf, impl="java", rng=None):
+    rng = rng or ctx.rng
     """(a) TLC -simulate walks of FailSafeJavaI replayed (spec -> code);  (b) seeded random long histories (code -> spec)."""
     T = ctx.thorough
     sd = workdir(ctx, "gen-" + impl)
@@ -618,12 +626,12 @@ def part_walks(ctx, execf, impl="java"):
     ctx.log("%s: replayed %d TLC walks (%d events), %d differ from the model's prediction" % (impl, len(walks), s1["executions"], drift))
     ctx.sample({"kind": "tlc-walk", "impl": impl, "config": scripts[0]["config"], "events": [ev_brief(e) for e in walks[0][1:10]]})
     rej, obs, _, lines = judge_tree(ctx, impl, execf, os.path.join(d, "gen.ndjson"), impl + "-gen", workers=2)
-    ctx.cov["evaluations"] += s1["executions"]
+    cov_add(ctx, "evaluations", s1["executions"])
     if not rej:
-        ctx.cov["traces_validated_against_impl"] += len(walks)
+        cov_add(ctx, "traces_validated_against_impl", len(walks))
 
     nr = 120 if not T else 1500
-    rs = [rand_script(ctx.rng, T, impl) for _ in range(nr)]
+    rs = [rand_script(rng, T, impl) for _ in range(nr)]
     json.dump(rs, open(os.path.join(d, "rand.json"), "w"))
     s2 = execf(ctx, ["scripts", os.path.join(d, "rand.json"), os.path.join(d, "rand.ndjson")])
     rej, obs, _, lines = judge_tree(ctx, impl, execf, os.path.join(d, "rand.ndjson"), impl + "-rand", workers=2)
@@ -631,10 +639,10 @@ def part_walks(ctx, execf, impl="java"):
     leaves, nontriv = leaf_stats(nodes)
     ctx.log("%s: recorded %d random histories (%d events), %d with open+recover, %d observations, %d rejected nodes" % (
         impl, nr, s2["executions"], nontriv, len(obs), len(rej)))
-    ctx.cov["evaluations"] += s2["executions"]
+    cov_add(ctx, "evaluations", s2["executions"])
     if not rej:
-        ctx.cov["traces_validated_against_impl"] += leaves
-        ctx.cov["distinct_nontrivial"] += nontriv
+        cov_add(ctx, "traces_validated_against_impl", leaves)
+        cov_add(ctx, "distinct_nontrivial", nontriv)
     return os.path.join(d, "rand.ndjson")
 
 
@@ -687,10 +695,10 @@ def run_filter(ctx, execf, spec, tag, env=None):
     return s, tp
 
 
-def rnd_hosts(ctx, n):
+def rnd_hosts(ctx, n, rng=None):
     """seeded random destinations beyond the enumerated pool: addresses around the range boundaries, as literals, as names, as
     IPv4-mapped IPv6 literals, and other IPv6 values"""
-    rng = ctx.rng
+    rng = rng or ctx.rng
 
     def rnd_ip():
         a = rng.choice([10, 127, 172, 172, 192, 192, 9, 11, 126, 128, 171, 173, 191, 193, rng.randint(1, 223)])
@@ -744,12 +752,13 @@ def probe(ctx, hosts, hf):
     return len(hosts)
 
 
-def part_filter(ctx, space, impl, node=None):
+def part_filter(ctx, space, impl, node=None, rng=None):
     T = ctx.thorough
+    rng = rng or ctx.rng
     lists = space["lists"]
     cfgs = [{"allow": a, "block": b} for a in lists for b in lists]
     hosts = list(space["hosts"])
-    rnd = rnd_hosts(ctx, 6 if not T else 25)
+    rnd = rnd_hosts(ctx, 6 if not T else 25, rng)
     hf = None
     if impl == "java":
         hf = hosts_file(ctx, hosts + rnd, "hosts-filter")
@@ -764,14 +773,14 @@ def part_filter(ctx, space, impl, node=None):
     # LUNAR_ALLOW_LIST set to the empty string (the README: "If the value is empty ... check the LUNAR_BLOCK_LIST")
     single += [{"allow": [], "block": b, "envform": "allow-empty"} for b in lists if len(b) <= 1][:4 if not T else 20]
     if not T:
-        runs = [("main", single + ctx.rng.sample(rest, 40 if impl == "java" else 25), hosts + rnd, False)]
-        wired_cfgs = single[:8] + ctx.rng.sample(rest, 12)
+        runs = [("main", single + rng.sample(rest, 40 if impl == "java" else 25), hosts + rnd, False)]
+        wired_cfgs = single[:8] + rng.sample(rest, 12)
     else:
-        picked = single + ctx.rng.sample(rest, 560 if impl == "java" else 260)
+        picked = single + rng.sample(rest, 560 if impl == "java" else 260)
         per = 300
         runs = [("main%d" % k, picked[i:i + per], hosts, False) for k, i in enumerate(range(0, len(picked), per))]
-        runs.append(("rand", ctx.rng.sample(rest, 200), rnd, False))
-        wired_cfgs = single + ctx.rng.sample(rest, 60)
+        runs.append(("rand", rng.sample(rest, 200), rnd, False))
+        wired_cfgs = single + rng.sample(rest, 60)
     # the same decisions as an application request sees them (hook / injected code + filter + a fresh breaker): destinations a URL can carry
     urlable = [h for h in hosts + rnd if h["kind"] in ("name", "ip4", "ip6") and " " not in h["h"] and h["h"] not in ("::", "a..b")]
     runs.append(("wired", wired_cfgs, urlable, True))
@@ -790,8 +799,8 @@ def part_filter(ctx, space, impl, node=None):
                 "obligation): %d observations, %d not permitted, %d differ from the transcription" % (
                     impl, tag, j["total"], " as an application request sees them" if wired else "", j["must_not"], j["must"], j["nobs"],
                     len(j["bad"]), j["ndrift"]))
-        ctx.cov["evaluations"] += j["total"]
-        ctx.cov["filter_cases"] = ctx.cov.get("filter_cases", 0) + j["total"]
+        cov_add(ctx, "evaluations", j["total"])
+        cov_add(ctx, "filter_cases", j["total"])
         lines = None
         if j["ndrift"]:
             lines = read_ndjson(tp)
@@ -822,11 +831,11 @@ def part_filter(ctx, space, impl, node=None):
                     raise Broken("filter rejection not reproduced: %s" % json.dumps(w))
                 ctx.violation(w, {"kind": "filter", "impl": impl, "case": one, "hosts_table": hosts + rnd, "recorded": case_brief(c)})
         else:
-            ctx.cov["traces_validated_against_impl"] += j["total"]
-            ctx.cov["distinct_nontrivial"] += j["must_not"] + j["must"]
+            cov_add(ctx, "traces_validated_against_impl", j["total"])
+            cov_add(ctx, "distinct_nontrivial", j["must_not"] + j["must"])
     if impl == "java":
         # cold runs: a fresh JVM per configuration with the lists in its REAL environment (no patching) must answer the same
-        cold_cfgs = [c for c in single if c["allow"] or c["block"]][:3] + ctx.rng.sample(rest, 3 if not T else 12)
+        cold_cfgs = [c for c in single if c["allow"] or c["block"]][:3] + rng.sample(rest, 3 if not T else 12)
         hs = hosts[:12] + [h for h in hosts if h["kind"] == "ip6"][:6]
 
         def cold(c):
@@ -850,6 +859,63 @@ def part_filter(ctx, space, impl, node=None):
     ctx.sample({"kind": "filter-decision", "impl": impl, "case": {"allow": [x["raw"] for x in runs[0][1][-1]["allow"]],
                                                                    "block": [x["raw"] for x in runs[0][1][-1]["block"]], "host": hosts[1]["h"]}})
     return first_tp, hf
+
+
+def run_python_filter(ctx, spec, tag):
+    d = ctx.sub("filter-" + tag)
+    sp, raw, tp = os.path.join(d, "cases.json"), os.path.join(d, "raw.ndjson"), os.path.join(d, "cases.ndjson")
+    json.dump(spec, open(sp, "w"))
+    env = dict(os.environ)
+    env["VERIF_REPO"] = REPO
+    env["PYTHONDONTWRITEBYTECODE"] = "1"
+    p = subprocess.run(["python3", os.path.join(VERIF, "py", "c19_exec.py"), "filter", sp, raw], cwd=ctx.sub("pycwd"), env=env,
+                       stdout=subprocess.PIPE, stderr=subprocess.PIPE, text=True, timeout=900)
+    if p.returncode != 0:
+        raise Broken("python executor failed rc=%d\n%s" % (p.returncode, p.stderr[-3000:]))
+    with open(tp, "w") as f:
+        for i, line in enumerate(open(raw)):
+            r = json.loads(line)
+            if i:
+                r.update(impl="python", stage="decide" if r["res"] == "raise" else "", envform="normal", exc=r.get("exc", ""))
+            f.write(json.dumps(r, separators=(",", ":"), sort_keys=True) + "\n")
+    return tp
+
+
+def part_filter_python(ctx, space, rng=None):
+    """the third implementation under the same statement: py/c19_exec.py (the C19 executor, unchanged) runs the Python TrafficFilter on a
+    sample of the same space; its records are completed with the fields of TrafficFilterV (bookkeeping) and judged by X04FilterTrace with
+    impl = "python" (no pinned deviation: whatever the statement alone rejects is a violation).  The fail-safe of the Python interceptor is
+    property C19 itself (same FailSafeRel) and is not repeated here."""
+    T = ctx.thorough
+    lists = space["lists"]
+    cfgs = [{"allow": a, "block": b} for a in lists for b in lists]
+    single = [c for c in cfgs if len(c["allow"]) + len(c["block"]) <= 1]
+    rest = [c for c in cfgs if len(c["allow"]) + len(c["block"]) > 1]
+    hosts = [h for h in space["hosts"] if not (h["kind"] == "name" and h["ip6"])]        # the resolver stand-in of c19_exec knows IPv4 answers only
+    tp = run_python_filter(ctx, {"hosts": hosts, "headers": ["absent", "empty", "true", "false", "TRUE"],
+                                 "configs": single + (rng or ctx.rng).sample(rest, 30 if not T else 400), "rounds": 2}, "python")
+    j = judge_filter(ctx, tp, "python")
+    ctx.log("python filter: %d decisions of the real TrafficFilter judged by TrafficFilterV (%d with a routing prohibition, %d with a routing obligation): "
+            "%d rejected by the statement alone" % (j["total"], j["must_not"], j["must"], j["nobs"]))
+    cov_add(ctx, "evaluations", j["total"])
+    cov_add(ctx, "filter_cases", j["total"])
+    if j["bad"]:
+        lines = read_ndjson(tp)
+        seen = {}
+        for b in j["bad"]:
+            c = lines[b - 1]
+            w = witness_filter(c)
+            key = (w["class"], w["host_kind"], c["rsv"], c["header"] == "absent", bool(c["allow"]), bool(c["block"]))
+            if key in seen or len(seen) >= 4:
+                continue
+            seen[key] = 1
+            one = {"hosts": [h for h in hosts if h["h"] == c["host"]][:1], "headers": [c["header"]],
+                   "configs": [{"allow": c["allow"], "block": c["block"]}], "rounds": 1}
+            ctx.violation(w, {"kind": "filter", "impl": "python", "case": one, "hosts_table": hosts, "recorded": case_brief(c)})
+    else:
+        cov_add(ctx, "traces_validated_against_impl", j["total"])
+        cov_add(ctx, "distinct_nontrivial", j["must_not"] + j["must"])
+        ctx.notes.append("python: %d filter decisions conform to the whole statement (T1-T5) with no deviation" % j["total"])
 
 
 # ----------------------------------------------------------------------------------------------- self-test
@@ -980,62 +1046,98 @@ def run(ctx):
     T = ctx.thorough
     ctx.x04_obs = {}
     ctx.x04_impls_run = ["java"]
-    ctx.cov["rule"] = ("java fail-safe: every event sequence over the alphabets (ask, clock advance, application request succeeding through the gateway / "
+    ctx.cov["rule"] = ("three implementations under one statement (java, ts: fail-safe + filter; python: filter - its fail-safe is C19). "
+                       "java fail-safe: every event sequence over the alphabets (ask, clock advance, application request succeeding through the gateway / "
                        "failing there [no connection, time-out, unknown host, error response x-lunar-error in four spellings] / hit by an application "
                        "exception [java.lang.Error; RuntimeException, IOException in the deviation family] / kept off the gateway by the filter, outcomes "
                        "of legs already in flight) up to the stated depth for N, C in 1..3 as one recorded tree per run, + TLC walks of FailSafeJavaI + seeded "
                        "random long histories incl. the default configuration and a millisecond clock; non-trivial = the breaker opened and a later read "
                        "answered TRUE again. java filter: decisions over the TLC-enumerated space (lists of <= 2 items incl. blank-padded / empty / "
                        "upper-case / IPv6 items x 43 destinations x 5 header values x 2 rounds through the result cache) + seeded random addresses, "
-                       "class level and through the injected code; non-trivial = TrafficFilterV forbids or demands routing for the case (counted by TLC)")
+                       "class level and through the injected code; non-trivial = TrafficFilterV forbids or demands routing for the case (counted by TLC). "
+                       "ts: the same families through the real fetch hook (every rejection of the gateway leg is caught: application exceptions and error "
+                       "responses only in the deviation family) and the real TrafficFilter (destinations as URL.host hands them over). "
+                       "python: a sample of the same filter space through py/c19_exec.py")
     ctx.cov["checker_cmd"] = ("tlc -config MC_X04FS_java.cfg MC_X04FS.tla ; tlc -config FailSafeTraceV.cfg FailSafeTraceV.tla ; "
-                              "tlc -config MC_X04Filter_java.cfg MC_X04Filter.tla ; tlc -config X04FilterTrace.cfg X04FilterTrace.tla")
+                              "tlc -config MC_X04Filter_java.cfg MC_X04Filter.tla ; tlc -config X04FilterTrace.cfg X04FilterTrace.tla ; "
+                              "tlc -config MC_X04FSTs_ts.cfg MC_X04FSTs.tla ; tlc -config MC_X04Filter_ts.cfg MC_X04Filter.tla")
     ctx.cov["trusted_base"] = ["TLC 1.8", "CommunityModules Json", "OpenJDK 17 javac/java",
                                "harness/java/x04: signature-only stand-ins for javassist and org.json; stand-in okhttp3 (Request, Headers with okhttp 3.x "
                                "toMultimap semantics, HttpUrl, Response, OkHttpClient) and the generated RealCall holding the injected code verbatim; "
                                "scripted Transport playing the network and the application's interceptors; SpyFailSafe (observer subclass)",
                                "process environment patched in place (ProcessEnvironment) between configurations - cross-checked against fresh JVMs",
-                               "-Djdk.net.hosts.file as the resolver table - cross-checked by the probe command"]
+                               "-Djdk.net.hosts.file as the resolver table - cross-checked by the probe command",
+                               "node >= 22.7 --experimental-transform-types running the .ts sources unchanged; harness/ts/x04: loader (extensionless imports, "
+                               "no-op stand-in for winston), scripted fetch under the real hook, loopback handshake server, Date.now as the clock, "
+                               "observer wrapper around FailSafe.stateOk"]
     ctx.assumptions += ["one FailSafe object is driven by one thread at a time (calls already in flight are calls started at the beginning of the history whose "
                         "gateway leg ends later; everything in between runs nested in the transport callback)",
                         "clock = the repository's MockClock; 1 tick = 1000/unit ms with unit in {1, 8, 1000}",
                         "the resolver is a fixed table per run; destinations are handed to the filter as okhttp3.HttpUrl.host() produces them",
                         "Retry.prepareForRetry is exercised only with 'retry-after: 0' (no retry); the retry flow is not specified",
-                        "the repository's own Java tests cannot run in this sandbox (no maven repository: junit / okhttp / javassist are not available)"]
-    # the exhaustive part does not depend on the repository: it runs beside the recordings
-    box = {}
-
-    node = find_node()
-    if node is None:
+                        "the repository's own Java / TypeScript tests cannot run in this sandbox (no maven repository, no node_modules: junit / okhttp / "
+                        "javassist / jest / typescript are not available)",
+                        "ts: only the fetch hook is driven; the http.request / https.request hook (LunarRequest) is not"]
+    # independent streams side by side: the exhaustive part (does not depend on the repository), the fail-safe recordings of each
+    # implementation, then the filter recordings of each implementation; every stream draws from its own seeded generator
+    import random
+    only = os.environ.get("X04_ONLY", "")          # development aid for mutation runs: "java" / "ts" restricts the recordings to one implementation
+    node = find_node() if only != "java" else None
+    if only:
+        ctx.notes.append("X04_ONLY=%s set: the recordings of the other implementations are skipped" % only)
+    elif node is None:
         ctx.notes.append("TypeScript interceptor NOT covered: no TypeScript compiler is installed and none can be fetched; no node >= 22.7 "
                          "(type stripping) found under /root/.nvm or on PATH (set X04_NODE)")
-    else:
-        ctx.x04_impls_run.append("ts")
-
-    def model():
-        try:
-            box["space"] = part_model(ctx, node is not None)
-        except BaseException as x:      # noqa: re-raised in the main thread
-            box["err"] = x
-    th = threading.Thread(target=model)
-    th.start()
-    try:
-        build_java(ctx)
-        hf = hosts_file(ctx, [], "hosts-failsafe")
-        execf = jexec(hf)
-        part_trees(ctx, execf)
-        rand_trace = part_walks(ctx, execf)
-        if node is not None:
-            part_trees(ctx, texec(node), "ts")
-            part_walks(ctx, texec(node), "ts")
-    finally:
-        th.join()
-    if "err" in box:
-        raise box["err"]
-    filter_trace, _ = part_filter(ctx, box["space"], "java")
     if node is not None:
-        part_filter(ctx, box["space"], "ts", node)
-    if T:
+        ctx.x04_impls_run.append("ts")
+    if only == "ts":
+        ctx.x04_impls_run.remove("java")
+    box = {}
+
+    def guarded(name, fn):
+        def run_it():
+            try:
+                box[name] = fn()
+            except BaseException as x:      # noqa: re-raised in the main thread
+                box["err-" + name] = x
+        th = threading.Thread(target=run_it)
+        th.start()
+        return th
+
+    def java_fs():
+        build_java(ctx)
+        execf = jexec(hosts_file(ctx, [], "hosts-failsafe"))
+        part_trees(ctx, execf)
+        return part_walks(ctx, execf, "java", random.Random(ctx.seed * 1000 + 1))
+
+    def ts_fs():
+        part_trees(ctx, texec(node), "ts")
+        return part_walks(ctx, texec(node), "ts", random.Random(ctx.seed * 1000 + 2))
+
+    def join(ths):
+        for th in ths:
+            th.join()
+        errs = [v for k, v in sorted(box.items()) if k.startswith("err-")]
+        if errs:
+            raise errs[0]
+    ths = [guarded("space", lambda: part_model(ctx, node is not None))]
+    if only != "ts":
+        ths.append(guarded("rand_trace", java_fs))
+    if node is not None:
+        ths.append(guarded("ts_fs", ts_fs))
+    join(ths)
+    space = box["space"]
+    ths = []
+    if only != "ts":
+        ths.append(guarded("filter", lambda: part_filter(ctx, space, "java", None, random.Random(ctx.seed * 1000 + 3))))
+    if node is not None:
+        ths.append(guarded("filter-ts", lambda: part_filter(ctx, space, "ts", node, random.Random(ctx.seed * 1000 + 4))))
+    if not only:
+        ths.append(guarded("filter-py", lambda: part_filter_python(ctx, space, random.Random(ctx.seed * 1000 + 5))))
+    join(ths)
+    rand_trace = box.get("rand_trace")
+    filter_trace = box["filter"][0] if box.get("filter") else None
+    if T and rand_trace and filter_trace:
         part_selftest(ctx, rand_trace, filter_trace)
     report_observations(ctx)
 
@@ -1063,7 +1165,10 @@ def replay(ctx, path):
             return 1
     else:
         hf = hosts_file(ctx, rp["hosts_table"], "hosts-filter")
-        s, tp = run_filter(ctx, jexec(hf) if impl == "java" else texec(node), rp["case"], "replay")
+        if impl == "python":
+            tp = run_python_filter(ctx, rp["case"], "replay")
+        else:
+            s, tp = run_filter(ctx, jexec(hf) if impl == "java" else texec(node), rp["case"], "replay")
         for n in read_ndjson(tp)[1:]:
             print(json.dumps(case_brief(n)))
         j = judge_filter(ctx, tp, "replay")
